@@ -3408,8 +3408,10 @@ class HasTraits(CHasTraits, metaclass=MetaHasTraits):
             return
 
         # Otherwise the local copy of the delegate value was deleted, restore
-        # the delegate listener (unless it's already there):
-        if name not in dict:
+        # the delegate listener (unless it's already there, or the trait is
+        # not listenable and never had one):
+        if (name not in dict) and (
+                name in self.__class__.__listener_traits__):
             self._init_trait_delegate_listener(
                 name, 0, self.__class__.__listener_traits__[name][1]
             )
